@@ -197,6 +197,8 @@ def expand_extract(ex, canary=False):
         text = _apply_rules(ex, text, fired)
         # strip doc comments / comments inside type definitions? keep: harmless
         header = ex.contract
+        # visibility is not semantics: extracted types are emitted `pub` so specs may mention their fields
+        text = re.sub(r'^((?:#\[[^\n]*\]\n)*)(struct|enum|trait)\b', r'\1pub \2', text, count=1)
         emitted = header + text
         ex.meta = dict(id=ex.id, kind=ex.kind, file=ex.file, line=rsrc.line_of(src, loc['start']),
                        sha256=hashlib.sha256(orig.encode()).hexdigest(), rules=fired,
